@@ -6,7 +6,7 @@ base = json.load(open("/root/.vp/BASELINE.json"))
 with tempfile.NamedTemporaryFile(suffix=".xml", delete=False) as f:
     xml = f.name
 env = dict(os.environ); env.pop("PHOTON_WEAVE_VERIF", None)
-subprocess.run(["/venv/bin/python", "-m", "pytest", "-q", "-p", "no:cacheprovider", "--timeout=900", "-n", "12",
+subprocess.run(["/venv/bin/python", "-m", "pytest", "-q", "-p", "no:cacheprovider", "--timeout=900", 
                 "--continue-on-collection-errors", f"--junitxml={xml}"], cwd=repo, env=env,
                stdout=subprocess.DEVNULL, stderr=subprocess.DEVNULL)
 passed = set()
